@@ -96,6 +96,56 @@ def created_linked(an, fn, node) -> (bool, str):
     return (not missing), ", ".join(missing)
 
 
+def factory_keys(an, fn, _depth=0) -> bool:
+    """Does every object this factory returns have ._key set from the field's own key?"""
+    if _depth > 3:
+        return False
+    g = an.cfg(fn)
+    rets = [n for n in g.nodes if n.kind == "return"]
+    if not rets:
+        return False
+    for r in rets:
+        v = r.ast.value
+        if not isinstance(v, ast.Name):
+            # return Config(self, parent, ...) inside a Schema method: key = schema key = field key (L1)
+            if isinstance(v, ast.Call) and fn.cls is not None and fn.cls.name == "Schema" and v.args and isinstance(v.args[0], ast.Name) \
+                    and v.args[0].id == fn.self_name:
+                continue
+            return False
+        stores = {m for m in g.nodes if m.kind == "assign" and isinstance(m.ast, ast.Assign) and any(
+            isinstance(t, ast.Attribute) and t.attr == "_key" and isinstance(t.value, ast.Name) and t.value.id == v.id for t in m.ast.targets)
+            and isinstance(m.ast.value, ast.Attribute) and m.ast.value.attr == "_key"}
+        def not_a_config(a, b, lbl):
+            # leaving the store out is fine for a value that is not a configuration at all
+            e = a.ast
+            return (a.kind == "test" and lbl is False and isinstance(e, ast.Call) and isinstance(e.func, ast.Name) and e.func.id == "isinstance"
+                    and isinstance(e.args[0], ast.Name) and e.args[0].id == v.id and "Config" in ast.unparse(e.args[1]))
+        if not stores or g.path(g.entry, lambda x, r=r: x is r, may_raise=lambda x: False, stop=lambda x: x in stores,
+                                edge_filter=lambda a, b, lbl: not not_a_config(a, b, lbl)) is not None:
+            return False
+    return True
+
+
+def created_keyed(an, fn, node) -> (bool, str):
+    """Is the sub-configuration created at node given its field's key by the creation itself?"""
+    Config = an.model.cls("Config")
+    missing = []
+    for t in an.targets(fn, node):
+        if t.kind == "ctor":
+            # Config(<schema bound as a field>, ...): Config.__init__ copies schema._key, which __setkey__ set to the field key
+            call = node.ast
+            bound_schema = t.cls is Config and fn.cls is not None and fn.cls.name == "Schema" and call.args and \
+                isinstance(call.args[0], ast.Name) and call.args[0].id == fn.self_name
+            if not bound_schema:
+                missing.append("%s(...) takes its key from the type's own (unbound) schema" % t.cls.name)
+        elif t.kind == "fn" and t.fn is not None:
+            if not factory_keys(an, t.fn):
+                missing.append("%s does not set ._key" % t.fn.qualname)
+        else:
+            missing.append(str(t))
+    return (not missing), "; ".join(missing)
+
+
 def sub_config_sites(an):
     """(fn, creation node, variable name | None, [use nodes]) for every place that creates a
     sub-configuration and then loads into it / stores it."""
@@ -145,13 +195,30 @@ def _from_creation(fn, name_expr, at, creation) -> bool:
     return any(k == "expr" and pl is creation.ast for k, pl in value_sources(fn, name_expr, at))
 
 
-def check_links(ctx, rule_prefix="link", need_container=False):
+def check_links(ctx, rule_prefix="link", need_container=False, need_key=False):
     an = ctx.an
     sites = sub_config_sites(an)
     ctx.need(len(sites) >= 3, "fewer than 3 sub-configuration creation sites found (%d): vanished anchors" % len(sites))
     for fn, n, var, uses in sites:
         linked, missing = created_linked(an, fn, n)
         g = an.cfg(fn)
+        if need_key:
+            keyed, kmissing = created_keyed(an, fn, n)
+            for kind, u in uses:
+                okk = keyed
+                if not okk and var:
+                    ks = {m for m in g.nodes if m.kind == "assign" and isinstance(m.ast, ast.Assign) and any(
+                        isinstance(t, ast.Attribute) and t.attr == "_key" and isinstance(t.value, ast.Name) and t.value.id == var
+                        for t in m.ast.targets)}
+                    if ks and g.path(n, lambda x: x is u, may_raise=lambda x: an.node_may_raise(fn, x),
+                                     stop=lambda x: x in ks and x is not u, from_successors=True) is None:
+                        okk = True
+                ctx.ob("%s.key" % rule_prefix, fn, n.ast, okk,
+                       "the sub-configuration carries its field's key before it is %s (line %s)" % (
+                           {"load_tree": "loaded", "store": "stored", "store-default": "stored as default"}[kind], u.lineno) if okk else
+                       "the sub-configuration is %s (line %s) without its field's key (%s): every error below it is reported with a "
+                       "truncated path (e.g. 'port' or 'sub..port' instead of 'sub.db.port')" % (
+                           {"load_tree": "loaded", "store": "stored", "store-default": "stored as default"}[kind], u.lineno, kmissing), node=n)
         for kind, u in uses:
             if linked:
                 ctx.ob("%s.parent" % rule_prefix, fn, n.ast, True,
